@@ -457,6 +457,9 @@ def run(ctx):
         dist["histories"] += 1
         cases += 1
     n_eval += deep_defaults_part(ctx, dist)
+    # cloned broadcast values are private per item, values BOUND on the mapped inner graph are the bound object itself
+    from harness.props.c10 import clone_part
+    n_eval += clone_part(ctx, dist)
     res = batch.run()
     if res["error"]:
         ctx.violation("harness", res["error"])
